@@ -219,6 +219,26 @@ def failing_variable_free_with_rules(tier):
     return out
 
 
+def degenerate_arity(tier):
+    """sums / products with exactly ONE (or no) operand, written directly or left behind when ones / zeros are eliminated, nested in each other and under
+    the unary nodes whose rules look inside a sum / product"""
+    out = []
+    for K in ("Add", "Multiply"):
+        O = "Multiply" if K == "Add" else "Add"
+        unit = const(0) if K == "Add" else const(1)
+        out += [[K, [K, X, Y]], [K, [K, [K, X]]], [K, ["Negation", X]], [K, ["Reciprocal", X]], [K, const(2)], [K, [O, X, Y]], [K, [K]],
+                [K, unit, ["Negation", X]], [K, unit, [K, X, Y]], [K, unit, ["Reciprocal", X]], [K, [O], X], [K, [K], X],
+                ["Negation", [K, [K, X, Y]]], ["Reciprocal", [K, ["Reciprocal", [K, X, Y]]]], ["Logarithm", [K, [K, X, Y]]], ["Exponential", [K, [K, X, Y]]],
+                ["NthPower", [K, ["NthPower", X, 2]], 3], ["Sine", [K, ["Negation", X]]], ["Cosine", [K, ["Negation", X]]],
+                [O, [K, ["Logarithm", ["Multiply", X, Y]]], Z], [O, [K, X], [K, Y]], ["Minus", [K, X], [K, ["Negation", Y]]], ["Divide", [K, X], [K, ["Reciprocal", Y]]],
+                ["Power", [K, X], [K, Y]]]
+    # binary nodes over two bare constants whose evaluation fails although a rule still applies
+    for a, b in ((-2, 3), (0, 0), (0, 1), (-4, -1), (-2, 2), (0, 2.5), (-1, 0)):
+        out += [["Power", const(a), const(b)], ["Add", X, ["Power", const(a), const(b)]], ["Power", ["Negation", const(-a)], const(b)]]
+    out += [["Divide", const(3), const(0)], ["Divide", const(0), const(0)], ["Minus", ["Divide", const(1), const(0)], const(2)]]
+    return out
+
+
 def f4(tier):
-    return dedup(param_pairs(tier) + unary_over_unary(tier) + power_patterns(tier) + nary_patterns(tier) + variable_free(tier)
+    return dedup(degenerate_arity(tier) + param_pairs(tier) + unary_over_unary(tier) + power_patterns(tier) + nary_patterns(tier) + variable_free(tier)
                  + unary_over_nary_with_constants(tier) + tiny_and_symbolic_folds(tier) + failing_variable_free_with_rules(tier))
